@@ -359,6 +359,47 @@ def rule_decoder_state(ck, R, rule='C06.f'):
                    'initialises the instance\'s SLIP decoder context' if ok else 'leaves the instance\'s SLIP decoder context as it was (uninitialised, or in the state of the previous channel)')
 
 
+def rule_decoder_owners(ck, R, rule='C06.f'):
+    """Who else touches the instance's decoder context.  Its state is knowledge about the CHANNEL (is the stream inside a
+    damaged frame that still has to be skipped?), so it may be reset only together with the channel: a function that
+    initialises or writes RegP.ep.slip also binds the channel (stores ep.source) on that path - regp_init, regp_use_channel.
+    Anything else (a session reset, an error handler, a statistics call) that re-initialises it makes the next receive
+    call parse the tail of a damaged frame as a frame of its own.  regp_recv itself is judged by decoder-resync."""
+    u = R.u
+    cands = []
+    for fn, fd in sorted(u.functions.items()):
+        if fn == 'regp_recv' or not (cast.node_file(fd) or '').endswith(('register-protocol.c', 'register-protocol.h')):
+            continue
+        txt = False
+        for x in cast.walk(fd):
+            if cast.kind(x) == 'MemberExpr' and x.get('name') == 'slip':
+                txt = True
+                break
+        if txt:
+            cands.append(fn)
+    bad = None
+    nown = 0
+    for fn in cands:
+        ps = R.paths(fn, rule, R.engine(set()))
+        if ps is None:
+            continue
+        for p in ps:
+            touched = [e for e in p.calls('rfc1055_context_init')
+                       if 'slip' in fmt(e.args[0])] + [e for e in p.stores() if '.slip' in fmt(e.name) or '->slip' in fmt(e.name)]
+            if not touched:
+                continue
+            nown += 1
+            binds = [e for e in p.stores() if fmt(e.name).endswith(('ep.source', 'ep.sink')) or '.ep.source.' in fmt(e.name) or '.ep.sink.' in fmt(e.name)]
+            if not binds:
+                bad = bad or ('%s (re)initialises or writes the instance\'s SLIP decoder context at %s without binding a channel on that path: the decoder\'s '
+                              'skip-to-end-of-frame state after a damaged frame belongs to the channel\'s stream, and is lost - the next regp_recv parses the tail of '
+                              'the damaged frame as a frame (a payload containing a frame image is executed and acknowledged)' % (fn, touched[0].where()))
+    if nown == 0:
+        return ck.broken(rule, 'decoder-owners', R.where('regp_init'), 'no function initialises the decoder context (anchor vanished)')
+    ck.verdict(bad is None, rule, 'decoder-owners', R.where('regp_init'),
+               'outside regp_recv the decoder context is written only where a channel is bound (%d paths in %s)' % (nown, ', '.join(cands)) if bad is None else bad)
+
+
 def run(ck):
     ck.rule('C06.h', 'the numeric response, type, option and meta codes behind the enumerators are those of the protocol document (C08.a re-evaluated): the error response prescribed for a verdict carries the prescribed code')
     ck.rule('C06.i', 'the transfer calls under the protocol (sink_put_chunk, source_get_chunk, their adaptors, sts_n) keep their position and retry discipline (C17.a-d, C17.f re-evaluated): a response reaches the sink octet for octet also when the driver interrupts')
@@ -375,6 +416,7 @@ def run(ck):
     rule_config(ck, R)
     rule_c(ck, R)
     rule_decoder_state(ck, R)
+    rule_decoder_owners(ck, R)
     # d: echo rules live in c08.rule_h / rule_fg; re-evaluate under this property
     from . import c08
     orig_v, orig_viol, orig_floor = ck.verdict, ck.violation, ck.floor
